@@ -35,7 +35,7 @@ def _field_of_param(e, fn, idx=0):
     return None
 
 
-def componentwise_rule(ctx, rid):
+def componentwise_rule(ctx, rid, only=None):
     files = [f for f in ctx.db.files() if f.startswith("include/crab/domains/") and not any(x in f for x in ("/apron", "/elina", "/ldd", "boxes.hpp"))]
     n_classes = set()
     # classes that are lattices themselves: they define is_bottom()
@@ -47,7 +47,7 @@ def componentwise_rule(ctx, rid):
     for f in files:
         by_cls = {}
         for fn in ctx.db.fns(f):
-            if fn["name"] in LATTICE and fn.get("cpk") and fn.get("params") and not fn.get("static"):
+            if fn["name"] in LATTICE and (only is None or fn["name"] in only) and fn.get("cpk") and fn.get("params") and not fn.get("static"):
                 cname = fn["cpk"].split("::")[-1]
                 p0 = fn["params"][0].get("TC") or fn["params"][0].get("T") or ""
                 if cname in p0:
